@@ -804,3 +804,187 @@ def uc_comment_cases():
         out.append(("trailing", "interface a.b\nerror E ()\n# trailing%s garbage" % ch))
         out.append(("trailing2", "interface a.b\nerror E ()\n# trailing%s\nerror F ()" % ch))
     return [(k, t.encode()) for k, t in out]
+
+
+# ---------------------------------------------------------------- large inputs, by recipe
+
+import json as _json
+import zlib as _zlib
+
+
+def canon_json(tree_wire):
+    return _json.dumps(tree_wire, sort_keys=True, separators=(",", ":"))
+
+
+def _hx(s):
+    return b(s).hex()
+
+
+def _canon_field(name, ty_json, comments=()):
+    return '{"comments":[%s],"name":"%s","ty":%s}' % (",".join('"%s"' % _hx(c) for c in comments), _hx(name), ty_json)
+
+
+_INT = '{"t":"int"}'
+
+
+def _canon_iface(types=(), methods=(), errors=(), comments=()):
+    return '{"comments":[%s],"errors":[%s],"methods":[%s],"name":"%s","types":[%s]}' % (
+        ",".join('"%s"' % _hx(c) for c in comments), ",".join(errors), ",".join(methods), _hx("a.b"), ",".join(types))
+
+
+def _canon_method(name, ins=(), outs=(), comments=()):
+    return '{"comments":[%s],"inputs":[%s],"name":"%s","outputs":[%s]}' % (
+        ",".join('"%s"' % _hx(c) for c in comments), ",".join(ins), _hx(name), ",".join(outs))
+
+
+def _canon_error(name, fields=(), comments=()):
+    return '{"comments":[%s],"fields":[%s],"name":"%s"}' % (
+        ",".join('"%s"' % _hx(c) for c in comments), ",".join(fields), _hx(name))
+
+
+def _canon_obj(name, fields=(), comments=()):
+    return '{"comments":[%s],"fields":[%s],"k":"obj","name":"%s"}' % (
+        ",".join('"%s"' % _hx(c) for c in comments), ",".join(fields), _hx(name))
+
+
+def _canon_variant(name, comments=()):
+    return '{"comments":[%s],"name":"%s"}' % (",".join('"%s"' % _hx(c) for c in comments), _hx(name))
+
+
+def _canon_enum(name, variants=(), comments=()):
+    return '{"comments":[%s],"k":"enum","name":"%s","variants":[%s]}' % (
+        ",".join('"%s"' % _hx(c) for c in comments), _hx(name), ",".join(variants))
+
+
+RUN_POSITIONS = ["after_last", "inline_struct", "inline_enum", "name_colon", "arrow_before", "arrow_after",
+                 "name_paren", "type_name_paren", "after_comma_inline", "attached_interface", "attached_member",
+                 "attached_param", "attached_field", "attached_variant", "between_members", "before_rparen_inline"]
+ENTRY_KINDS = ["type_obj", "type_enum", "method_in", "method_out", "error", "inline_struct", "inline_enum"]
+DEEP_PREFIXES = ["[]", "[string]", "?[]", "(a: "]
+
+
+def expand_recipe(rc):
+    """recipe -> (text bytes, expected class, expected canonical tree JSON or None). The expected
+    outcome is known by construction: this is the specification-level evaluation of the large
+    inputs (the Coq model is not run on them)."""
+    k = rc["kind"]
+    if k == "run":
+        n, what, pos = rc["n"], rc["what"], rc["pos"]
+        unit = {"comment": "# c\n", "blank": "\n", "mixed": "# c\n\n \t", "cr_comment": "# c\r\n"}[what]
+        run = unit * n
+        att = ["c"] * n if what != "blank" else []
+        parts = {p: "" for p in RUN_POSITIONS}
+        parts[pos] = run
+        P = parts
+        text = (P["attached_interface"] + "interface a.b\n" + P["attached_member"] + "method M" + P["name_paren"]
+                + "(" + P["attached_param"] + "a" + P["name_colon"] + ": int) " + P["arrow_before"] + "->"
+                + P["arrow_after"] + " (r: (" + P["inline_struct"] + "p: int," + P["after_comma_inline"]
+                + " q: int" + P["before_rparen_inline"] + "))\n" + P["between_members"]
+                + "type E (" + P["attached_variant"] + "one, two)\n"
+                + "type T" + P["type_name_paren"] + " (" + P["attached_field"] + "f: (" + P["inline_enum"] + "x, y))\n"
+                + P["after_last"])
+        a = lambda p: att if pos == p else []
+        exp = _canon_iface(
+            types=[_canon_enum("E", [_canon_variant("one", a("attached_variant")), _canon_variant("two")]),
+                   _canon_obj("T", [_canon_field("f", '{"t":"enum","vs":[%s,%s]}' % (_canon_variant("x"), _canon_variant("y")),
+                                                 a("attached_field"))])],
+            methods=[_canon_method("M", [_canon_field("a", _INT, a("attached_param"))],
+                                   [_canon_field("r", '{"fs":[%s,%s],"t":"struct"}' % (
+                                       _canon_field("p", _INT), _canon_field("q", _INT)))],
+                                   a("attached_member"))],
+            comments=a("attached_interface"))
+        return text.encode(), "ok", exp
+    if k == "entries":
+        n, lk = rc["n"], rc["list"]
+        bare = lk in ("type_enum", "inline_enum")
+        names = ["f%d" % i for i in range(n)]
+        body = ", ".join(names) if bare else ", ".join("%s: int" % x for x in names)
+        if rc.get("mixed"):        # a bare name after n typed entries (or a typed one after n bare): illegal
+            body += ", zz" if not bare else ", zz: int"
+        fields = [_canon_field(x, _INT) for x in names]
+        variants = [_canon_variant(x) for x in names]
+        if lk == "type_obj":
+            text, exp = "type T (%s)" % body, _canon_iface(types=[_canon_obj("T", fields)])
+        elif lk == "type_enum":
+            text, exp = "type T (%s)" % body, _canon_iface(types=[_canon_enum("T", variants)])
+        elif lk == "method_in":
+            text, exp = "method M(%s) -> ()" % body, _canon_iface(methods=[_canon_method("M", fields)])
+        elif lk == "method_out":
+            text, exp = "method M() -> (%s)" % body, _canon_iface(methods=[_canon_method("M", [], fields)])
+        elif lk == "error":
+            text, exp = "error E (%s)" % body, _canon_iface(errors=[_canon_error("E", fields)])
+        elif lk == "inline_struct":
+            text = "error E (x: (%s))" % body
+            exp = _canon_iface(errors=[_canon_error("E", [_canon_field("x", '{"fs":[%s],"t":"struct"}' % ",".join(fields))])])
+        else:
+            text = "error E (x: (%s))" % body
+            exp = _canon_iface(errors=[_canon_error("E", [_canon_field("x", '{"t":"enum","vs":[%s]}' % ",".join(variants))])])
+        if rc.get("mixed"):
+            return ("interface a.b\n" + text).encode(), "err", None
+        return ("interface a.b\n" + text).encode(), "ok", exp
+    if k == "members":
+        n = rc["n"]
+        lines, ts, ms, es = [], [], [], []
+        for i in range(n):
+            if i % 3 == 0:
+                lines.append("type T%d (a: int)" % i)
+                ts.append(_canon_obj("T%d" % i, [_canon_field("a", _INT)]))
+            elif i % 3 == 1:
+                lines.append("method M%d() -> ()" % i)
+                ms.append(_canon_method("M%d" % i))
+            else:
+                lines.append("error E%d ()" % i)
+                es.append(_canon_error("E%d" % i))
+        return ("interface a.b\n" + "\n".join(lines) + "\n").encode(), "ok", _canon_iface(ts, ms, es)
+    if k == "deep":
+        d, pre = rc["depth"], rc["prefix"]
+        if pre == "(a: ":
+            text = "(a: " * d + "int" + ")" * d
+            ty = '{"fs":[{"comments":[],"name":"%s","ty":' % _hx("a") * d + _INT + '}],"t":"struct"}' * d
+        elif pre == "?[]":
+            text = "?[]" * d + "int"
+            ty = '{"i":{"i":' * d + _INT + ',"t":"arr"},"t":"opt"}' * d
+        else:
+            text = pre * d + "int"
+            ty = '{"i":' * d + _INT + ',"t":"%s"}' % ("arr" if pre == "[]" else "map") * d
+        return ("interface a.b\nmethod M(x: %s) -> ()" % text).encode(), "ok", \
+            _canon_iface(methods=[_canon_method("M", [_canon_field("x", ty)])])
+    raise ValueError(k)
+
+
+def expected_summary(exp):
+    return None if exp is None else {"tree_crc": _zlib.crc32(exp.encode()) & 0xFFFFFFFF, "tree_len": len(exp)}
+
+
+def big_recipes(quick=True):
+    """Long and deep instances of every repeated or recursive production."""
+    out = []
+    n_run = 50000
+    for pos in RUN_POSITIONS:
+        for what in ("comment", "blank"):
+            out.append({"kind": "run", "pos": pos, "what": what, "n": n_run})
+    for pos in ("after_last", "inline_struct", "attached_member", "attached_field"):
+        out.append({"kind": "run", "pos": pos, "what": "mixed", "n": n_run // 2})
+        out.append({"kind": "run", "pos": pos, "what": "cr_comment", "n": n_run // 2})
+    for lk in ENTRY_KINDS:
+        for n in ((65535, 65536, 65537) if quick else (5000, 65535, 65536, 65537, 131072)):
+            out.append({"kind": "entries", "list": lk, "n": n})
+    for lk in ("type_obj", "type_enum"):
+        for n in (256, 512, 65536):
+            out.append({"kind": "entries", "list": lk, "n": n, "mixed": True})
+    out.append({"kind": "members", "n": 100000 if quick else 300000})
+    for pre in DEEP_PREFIXES:
+        for d in (500, 2000):
+            out.append({"kind": "deep", "prefix": pre, "depth": d})
+    return out
+
+
+def describe_recipe(rc):
+    k = rc["kind"]
+    if k == "run":
+        return "%d %s lines in position %s" % (rc["n"], rc["what"], rc["pos"])
+    if k == "entries":
+        return "a %s list with %d entries%s" % (rc["list"], rc["n"], " followed by one entry of the other kind" if rc.get("mixed") else "")
+    if k == "members":
+        return "%d members" % rc["n"]
+    return "a type nested %d deep with prefix %r" % (rc["depth"], rc["prefix"])
